@@ -551,8 +551,9 @@ def findall (rx : Rx) (p : Path) (doc extra : J) : List J := (finditer rx p doc 
 
 /-! ## Compound queries (`CompoundJSONPath`) -/
 
-/-- `obj in _objs`: Python list membership (`==`). -/
-def inObjs (v : J) (objs : List J) : Bool := objs.any (fun o => pyEq v o)
+/-- `self._found(obj, _objs)`: some value of the right result equals `obj` with the equality of `==` in a filter
+    (`_eq_values`: booleans are not numbers, deep) -/
+def inObjs (v : J) (objs : List J) : Bool := objs.any (fun o => v.eqv o)
 
 /-- `CompoundJSONPath.finditer`: `itertools.chain` for union; `_intersection(matches, objs)` for
     intersection, where `objs` is bound when the helper is called (once per operand). -/
